@@ -22,7 +22,14 @@ class ContentBody:
 
     def __len__(self) -> int:
         """Return the length of the content body value"""
-        return len(self.value) if self.value else 0
+        value = self.value
+        if value is not None and not isinstance(value, bytes):
+            try:
+                # Other buffers are sent as their bytes, not their items
+                return memoryview(value).nbytes
+            except TypeError:
+                pass
+        return len(value) if value else 0
 
     def marshal(self) -> bytes:
         """Return the marshaled content body. This method is here for API
